@@ -36,6 +36,10 @@ func safeValue(v *ref.V) bool {
 }
 
 func draw(t *rapid.T) Case {
+	if gen.OneIn(t, 400, "manyops") {
+		d, ops := gen.ManyOps(t)
+		return Case{Doc: d.Text(false), Patch: ref.OpsText(ops, false), Neg: rapid.Bool().Draw(t, "mneg")}
+	}
 	doc := gen.Default.Root().Draw(t, "doc")
 	neg := rapid.Bool().Draw(t, "neg")
 	g := gen.NewOpGen(neg)
